@@ -3,9 +3,14 @@
    (model Conc/RefLoop.v, tied to the code by the exact correspondence check Corr/C07Run.v) under
    the event protocol env_ok of the version layer, for EVERY order in which references are taken
    and released, every number of versions queued behind a pinned one (also more than
-   maxCachedNumber), abandoned ids, and every outcome of the loop's age test.
+   maxCachedNumber), abandoned ids, and every outcome of the loop's age test (theorems 1-3); that the
+   version layer (model Conc/VersionLayer.v of version.go / session_util.go setVersion / session.go
+   newSession, create, recover, commit; tied to the code by the KVL cases of Corr/C07Run.v) sends only
+   such sequences, for every sequence of operations respecting the API discipline (theorem 4); and
+   the two composed, quantified over version-layer operation sequences (theorems 5-6).
    Property theorems only; each is closed by [exact lemma] and followed by Print Assumptions. *)
-From GL Require Import Conc.RefLoop Conc.RefLoopProofs Gen.Consts Gen.InstRefLoop.
+From GL Require Import Conc.RefLoop Conc.RefLoopProofs Conc.VersionLayer Conc.VersionLayerProofs
+  Gen.Consts Gen.InstRefLoop.
 From Coq Require Import NArith List Bool Permutation.
 Import ListNotations.
 Open Scope N_scope.
@@ -41,11 +46,58 @@ Theorem C07_refloop_no_negative : forall p ins, env_ok ins = true ->
 Proof. exact refloop_no_negative. Qed.
 Print Assumptions C07_refloop_no_negative.
 
+(* 4. The version layer only sends protocol-conforming sequences.  o: how the session was opened
+      (created, or recovered from any manifest content); ops: any sequence of session.version(),
+      version.release(), session.commit (any record, trivial flag, outcome: success / failure /
+      failure after newManifest had already switched) that respects the API discipline
+      vl_disciplined (every release gives back a reference taken earlier on that version; a record
+      deletes tables of the current version at their level and adds new table numbers, or the same
+      number it deletes - trivial move; until a recovered session has a manifest writer a record
+      only adds tables and a failing commit ends the session; the recovered version lists no number
+      twice).  Then no operation panics and the events sent - with timer ticks / counter queries
+      interleaved ANYWHERE (also inside setVersion) and any outcome of the age test - satisfy
+      env_ok. *)
+Theorem C07_session_emits_env_ok : forall o ops, vl_disciplined o ops = true ->
+  exists st evs, vl_run o ops = VOk (st, evs) /\
+    forall ins, untick (map fst ins) = evs -> env_ok ins = true.
+Proof. exact session_emits_env_ok. Qed.
+Print Assumptions C07_session_emits_env_ok.
+
+(* 5. Safety, end to end: no hypothesis about the events.  After any disciplined operations, and
+      whatever part [pre] of the events sent so far the loop has consumed, the loop has not panicked
+      and no table of a version that can still be read (the current one, or a replaced one some
+      reader still holds: vl_live) has been removed. *)
+Theorem C07_files_safe_end_to_end : forall p o ops, vl_disciplined o ops = true ->
+  exists st evs, vl_run o ops = VOk (st, evs) /\
+    forall ins, untick (map fst ins) = evs ->
+    forall pre suf, ins = pre ++ suf ->
+    exists s rm, run p pre = Ok (s, rm) /\
+      forall v f, In v (vl_live st) -> In f (flat (vr_levels v)) -> ~ In f rm.
+Proof. exact files_safe_end_to_end. Qed.
+Print Assumptions C07_files_safe_end_to_end.
+
+(* 6. Completeness, end to end: once no replaced version is referenced any more and the loop has
+      consumed everything, it has removed exactly the tables that ever belonged to a version of the
+      session (vl_seen) and are not in the current one, each once; its queues are empty; it counts
+      only current tables. *)
+Theorem C07_files_complete_end_to_end : forall p o ops, vl_disciplined o ops = true ->
+  exists st evs, vl_run o ops = VOk (st, evs) /\
+    (vs_olds st = [] ->
+     forall ins, untick (map fst ins) = evs ->
+     exists s rm, run p ins = Ok (s, rm) /\ NoDup rm /\
+       (forall f, In f rm <-> In f (vl_seen o ops) /\ ~ In f (flat (vr_levels (vs_cur st)))) /\
+       Permutation rm (ldiff (vl_seen o ops) (flat (vr_levels (vs_cur st)))) /\
+       released s = [] /\ deltas s = [] /\
+       (forall f, 1 <= cnt (fileRef s) f -> In f (flat (vr_levels (vs_cur st))))).
+Proof. exact files_complete_end_to_end. Qed.
+Print Assumptions C07_files_complete_end_to_end.
+
 (* Clauses of C07 that are NOT theorems here (full statements; they are evaluated by the property
    oracle of harness/cmd/c07 on the implementation over the checker-owned storage, see props/C07.json):
-   - session_emits_env_ok: every event sequence that version.incref/releaseNB, session.setVersion,
-     commit (also failing), recover and newSession send to the loop satisfies env_ok.  Checked on
-     random histories of the real version layer (its loop replaced by a recorder), not proved.
+   - the API discipline vl_disciplined itself: that db.go / db_compaction.go / db_transaction.go /
+     db_iter.go / db_snapshot.go only call the version layer in this way is read off the code and
+     exercised by the DB-level oracle, not proved (theorem 4 replaces the former unproved clause
+     session_emits_env_ok, which assumed the event protocol of the version layer).
    - sweep_exact: after Open (recover + checkAndCleanFiles) and once background work settled, the
      storage holds exactly the tables of the current version, the live journal, the manifest CURRENT
      names (and CURRENT); a missing live table is reported as corruption.
@@ -143,4 +195,71 @@ Definition ex_reopen_double : list input :=
 
 Example C07_ex_reopen_double_leaks : env_ok ex_reopen_double = false /\
   match run rlp ex_reopen_double with Ok (s, rm) => leqb rm [3; 4] && (cnt (fileRef s) 9 =? 1) | _ => false end = true.
+Proof. split; vm_compute; reflexivity. Qed.
+
+(* ---------- non-vacuity of theorems 4-6 ---------- *)
+
+Definition tb (n a b : N) : tbl := {| t_num := n; t_min := a; t_max := b |}.
+Definition rc (a : list (N * tbl)) (d : list (N * N)) : srec := {| r_added := a; r_deleted := d |}.
+
+(* a recovered session (tables 4 at level 0, 3 at level 1), the first commit adds the table 9 flushed
+   from the journal, a reader pins that version, a table compaction merges 4, 3, 9 into 10 and moves
+   nothing, a commit fails (id abandoned), a trivial move of 10 from level 2 to level 3, a commit
+   fails after the manifest had been switched, the reader lets go *)
+Definition ex_vl_open : vopen := ORecover [rc [(0, tb 4 1 5); (1, tb 3 2 6)] []].
+Definition ex_vl_ops : list vop :=
+  [VCommit (rc [(0, tb 9 0 9)] []) false COk;
+   VAcquire;
+   VCommit (rc [(2, tb 10 0 9)] [(0, 4); (1, 3); (0, 9)]) true COk;
+   VCommit (rc [(0, tb 11 0 3)] []) false CFail;
+   VCommit (rc [(3, tb 10 0 9)] [(2, 10)]) true COk;
+   VCommit (rc [(0, tb 12 0 3)] []) false CFailSwitched;
+   VRelease 2].
+
+Example C07_ex_vl_disciplined : vl_disciplined ex_vl_open ex_vl_ops = true.
+Proof. vm_compute. reflexivity. Qed.
+
+Example C07_ex_vl_events :
+  match vl_run ex_vl_open ex_vl_ops with
+  | VOk (st, evs) =>
+      env_ok (map (fun e => (e, [])) evs)
+      && match run rlp (map (fun e => (e, [])) evs) with
+         | Ok (s, rm) => leqb rm [4; 3; 9] && leqb (map fst (fileRef s)) [10]
+         | _ => false
+         end
+      && leqb (flat (vr_levels (vs_cur st))) [10] && (N.of_nat (length (vs_olds st)) =? 0)
+  | VPanic _ => false
+  end = true.
+Proof. vm_compute. reflexivity. Qed.
+
+(* the discipline is needed: a first commit after a recovery that deletes a recovered table is
+   outside it, what the layer then sends is outside env_ok, and the loop panics ("negative ref") *)
+Definition ex_vl_bad_ops : list vop := [VCommit (rc [(0, tb 9 0 9)] [(0, 4)]) false COk].
+
+Example C07_ex_vl_undisciplined :
+  vl_disciplined ex_vl_open ex_vl_bad_ops = false /\
+  match vl_run ex_vl_open ex_vl_bad_ops with
+  | VOk (_, evs) =>
+      negb (env_ok (map (fun e => (e, [])) evs))
+      && match run rlp (map (fun e => (e, [])) evs) with Panic (NegativeRef 4) => true | _ => false end
+  | VPanic _ => false
+  end = true.
+Proof. split; vm_compute; reflexivity. Qed.
+
+(* so is the clause about the outcome "failed after newManifest had switched" while a recovered
+   session has no manifest writer yet (through the DB this ends the session: Open fails): continuing
+   from it, the recovered tables are never counted and deleting one of them later makes the loop panic *)
+Definition ex_vl_switched_ops : list vop :=
+  [VCommit (rc [(0, tb 9 0 9)] []) false CFailSwitched;
+   VCommit (rc [(0, tb 10 0 9)] []) false COk;
+   VCommit (rc [] [(0, 4)]) false COk].
+
+Example C07_ex_vl_failed_switched :
+  vl_disciplined ex_vl_open ex_vl_switched_ops = false /\
+  match vl_run ex_vl_open ex_vl_switched_ops with
+  | VOk (_, evs) =>
+      negb (env_ok (map (fun e => (e, [])) evs))
+      && match run rlp (map (fun e => (e, [])) evs) with Panic (NegativeRef 4) => true | _ => false end
+  | VPanic _ => false
+  end = true.
 Proof. split; vm_compute; reflexivity. Qed.
